@@ -1,6 +1,7 @@
 // C18 — SipHash::Compute is standard SipHash-2-4, at compile time and at run time.
 #include <array>
 #include <limits>
+#include <nop/rpc/interface.h>
 #include <nop/table.h>
 #include <nop/utility/sip_hash.h>
 
@@ -63,6 +64,34 @@ void name_lemma(const char (&name)[N], std::uint64_t compile_time_hash) {
   vt_cover(true, "name lemma end");
 }
 
+// interface hash and method selectors (64- and 32-bit selector flavours)
+struct Iface64 : nop::Interface<Iface64> {
+  NOP_INTERFACE("io.github.eieio.vt.Iface64");
+  NOP_METHOD(Add, int(int, int));
+  NOP_METHOD(Frobnicate, void(int));
+  NOP_INTERFACE_API(Add, Frobnicate);
+};
+struct Iface32 : nop::Interface<Iface32> {
+  NOP_INTERFACE32("io.github.eieio.vt.Iface32");
+  NOP_METHOD(Add, int(int, int));
+  NOP_METHOD(Frobnicate, void(int));
+  NOP_INTERFACE_API(Add, Frobnicate);
+};
+
+template <typename Sel, std::size_t NI, std::size_t NM>
+void selector_lemma(const char (&iface_name)[NI], const char (&method_name)[NM], std::uint64_t ct_iface_hash, std::uint64_t ct_selector) {
+  unsigned char raw_i[NI], raw_m[NM];
+  std::memcpy(raw_i, iface_name, NI);
+  std::memcpy(raw_m, method_name, NM);
+  const std::uint64_t ref_hash = vt_siphash24(raw_i, NI, nop::kNopInterfaceKey0, nop::kNopInterfaceKey1);
+  vt_check(ct_iface_hash == ref_hash, "interface hash == SipHash-2-4 of the interface name under the interface keys");
+  const Sel ref_sel = static_cast<Sel>(vt_siphash24(raw_m, NM, ref_hash, nop::kNopInterfaceKey1));
+  vt_check(ct_selector == static_cast<std::uint64_t>(ref_sel), "method selector == SipHash-2-4 of the method name keyed with the full interface hash (truncated to the selector type)");
+  const Sel run_time = nop::ComputeMethodSelector<Sel>(method_name, ct_iface_hash);
+  vt_check(static_cast<std::uint64_t>(run_time) == ct_selector, "selector computed at run time == the constant the compiler evaluated");
+  vt_cover(true, "selector lemma end");
+}
+
 std::uint64_t x_sip_u8(const std::uint8_t* p, std::size_t n, std::uint64_t k0, std::uint64_t k1) {
   return nop::SipHash::Compute(nop::BlockReader<std::uint8_t>(p, n), k0, k1);
 }
@@ -83,4 +112,24 @@ VT_HARNESS(h_sip_name_ascii) {
 VT_HARNESS(h_sip_name_utf8) {
   const char name[] = "caf\xc3\xa9.\xe8\xa1\xa8";
   vt::name_lemma(name, nop::EntryListTraits<vt::TableUtf8>::EntryList::Hash);
+}
+VT_HARNESS(h_sip_sel64_add) {
+  const char in[] = "io.github.eieio.vt.Iface64";
+  const char mn[] = "Add";
+  vt::selector_lemma<std::uint64_t>(in, mn, vt::Iface64::NOP__INTERFACE::Hash, vt::Iface64::Add::Selector);
+}
+VT_HARNESS(h_sip_sel64_frob) {
+  const char in[] = "io.github.eieio.vt.Iface64";
+  const char mn[] = "Frobnicate";
+  vt::selector_lemma<std::uint64_t>(in, mn, vt::Iface64::NOP__INTERFACE::Hash, vt::Iface64::Frobnicate::Selector);
+}
+VT_HARNESS(h_sip_sel32_add) {
+  const char in[] = "io.github.eieio.vt.Iface32";
+  const char mn[] = "Add";
+  vt::selector_lemma<std::uint32_t>(in, mn, vt::Iface32::NOP__INTERFACE::Hash, vt::Iface32::Add::Selector);
+}
+VT_HARNESS(h_sip_sel32_frob) {
+  const char in[] = "io.github.eieio.vt.Iface32";
+  const char mn[] = "Frobnicate";
+  vt::selector_lemma<std::uint32_t>(in, mn, vt::Iface32::NOP__INTERFACE::Hash, vt::Iface32::Frobnicate::Selector);
 }
